@@ -12,6 +12,7 @@ PROP = {
              "lifetime (29-32 s, 31 s + cool-down, 200 s). Non-trivial: a sequence uses up its attempts (in-condition response answered without a retry right after a "
              "retry verdict) while another sequence's last verdict is `retry` (mid-way). distinct = canonical JSON of configuration + history"),
     "assumptions": [
+        "flows mode, cooldown 0: in one case of three a second flow (filter h.com/*) matches the same calls and carries the same Retry processor under the same processor key: two flows, two counters - both processors must say the same for every response, and the call is retried at most the configured number of times",
         "in one case of four the sequence ids (client text: x-lunar-sequence-id) are ids that a key normalisation would map onto each other - a long id, its first 64 / 36 bytes, its SHA-256 / SHA-1 / MD5 in hex, its lower-case form, itself plus a space: they are different sequences with counters of their own",
         "the gateway's log level (LOG_LEVEL: off in three cases of eight, else error / info / debug / trace; what is logged is thrown away, what a log statement does to build its arguments happens) is a generated part of every case of TestFlowsRetryBound, TestPolicyRetryThroughDispatcher and TestPolicyRetryBound: no answer may depend on it; a failing case reports its level",
         "policy histories: time is modelled in milliseconds; one step in five is a further 1-999 ms later, so that answers (and the instants at which the remedy writes its state) do not sit on whole seconds and land inside the last second of a state's lifetime (cool-down + 31 s)",
